@@ -19,9 +19,11 @@
    object's tree); store independence: the model parametrised by the store's enumeration
    function gives the same answer for every enumeration that hands out each matching triple
    once (all operators except OFFSET), and Memory / SimpleMemory (C01) satisfy that.
-   NOT proved: invariance under renaming (C15_rename), the
+   Renaming of variables: proved for BGPs (specification and model) and, in the specification,
+   for joins, unions, VALUES, sub-SELECT, DISTINCT, GRAPH over an IRI (C15_rename_partial).
+   NOT proved: renaming through expressions / OPTIONAL / MINUS, the
    "never forgotten" half of initBindings (not in the model). *)
-From RV Require Import Sparql.VariantProofs Sparql.PreparedProofs Sparql.StoreIndep.
+From RV Require Import Sparql.VariantProofs Sparql.PreparedProofs Sparql.StoreIndep Sparql.Rename.
 
 Theorem C15_bgp_perm : forall ds g ts ts',
   Permutation ts ts' -> Permutation (eval_bu ds g (BGP ts)) (eval_bu ds g (BGP ts')).
@@ -215,9 +217,7 @@ Print Assumptions C15_enum_independent_partial.
 (* the hypothesis [enum_ok] holds for the stores of C01: a Memory context and a SimpleMemory
    store that satisfy their invariants and hold exactly the set g (C01_mem_triples_exact,
    C01_simple_triples_exact; C01_history: every state reached by a history does).  The
-   auditable wrapper enumerates through the wrapped store's triples(); by
-   C18_over_memory_refines the wrapped Memory state holds exactly the quads of the
-   list-level model after every history, so C15_enum_memory applies to it as it stands. *)
+   auditable wrapper: C15_enum_auditable below. *)
 Theorem C15_enum_memory : forall (m : Store.Model.mem) k (g : graph),
   Store.MemProofs.MemInv m -> NoDup g -> (forall t, Store.Model.mem_holds m k t = true <-> In t g) ->
   forall s p o, Permutation (Store.Model.mem_triples m k (s, p, o)) (g_triples g s p o).
@@ -238,6 +238,64 @@ Theorem C15_enum_aggregate : forall (gs : list graph) s p o,
   flat_map (fun g => g_triples g s p o) gs = g_triples (concat gs) s p o.
 Proof. exact enum_aggregate. Qed.
 Print Assumptions C15_enum_aggregate.
+
+(* the auditable wrapper over the Memory model (Auditable/OverStore.v, C18): after EVERY
+   operation of ANY history through the wrapper(s) - adds, removes, commits, rollbacks - the
+   wrapped store enumerates, for every context and every pattern, exactly the triples the
+   list-level model of the wrapper prescribes for that context ([ctx_graph S' k]), each once:
+   the [En] hypothesis of C15_store_independent_partial for the set the history prescribes.
+   (Composition of C18's simulation - which carries the store invariant - with C15_enum_memory.) *)
+Theorem C15_enum_auditable : forall ops m S,
+  Store.MemProofs.MemInv m -> (forall c t, Store.Model.mem_holds m c t = Base.Quads.q_mem (t, c) S) -> NoDup S ->
+  Forall2 (fun m' S' => forall k s p o,
+             Permutation (Store.Model.mem_triples m' k (s, p, o)) (g_triples (ctx_graph S' k) s p o))
+          (Auditable.OverStore.x_run Store.Model.mem Store.Model.mem_add Store.Model.mem_remove Store.Model.mem_triples
+             (Auditable.OverStore.x_init m) ops)
+          (Auditable.Model.a_run (Auditable.Model.a_init S) (map Auditable.OverStore.to_aop ops)).
+Proof. exact enum_auditable. Qed.
+Print Assumptions C15_enum_auditable.
+
+(* a Dataset held as the contexts of ONE Memory store ([k0]: the default graph's context,
+   [names]: graph names with their contexts): ONE enumeration function for the whole dataset,
+   built from the store's per-context triples(), satisfies [enum_ok] - so GRAPH patterns (IRI
+   or variable) are covered too *)
+Theorem C15_enum_dataset : forall m k0 names c, Store.MemProofs.MemInv m ->
+  c_ds c = store_dataset m k0 names -> enum_ok (En_store m k0 names) c.
+Proof. exact enum_dataset. Qed.
+Print Assumptions C15_enum_dataset.
+
+Theorem C15_store_dataset_partial : forall m k0 names c, Store.MemProofs.MemInv m ->
+  c_ds c = store_dataset m k0 names -> no_slice (c_alg c) = true ->
+  obs_eqb (model_obs_en (En_store m k0 names) c) (model_obs c) = true.
+Proof. exact store_dataset_model. Qed.
+Print Assumptions C15_store_dataset_partial.
+
+(* ---- renaming of variables (Sparql/Rename.v) ----
+   [r] a permutation of the variable names with inverse [r'] (an injective renaming of the
+   finitely many variables of a query extends to one); [ren_s r] the renamed solution in
+   canonical form.  A renamed BGP has exactly the renamed solutions - list for list in the
+   specification, up to the order of the solutions in rdflib's evaluator under every context. *)
+Theorem C15_rename_bgp : forall r r', (forall v, r' (r v) = v) -> (forall w, r (r' w) = w) ->
+  forall ds g ts, eval_bu ds g (BGP (map (ren_tp r) ts)) = map (ren_s r) (eval_bu ds g (BGP ts)).
+Proof. exact ren_bu_bgp. Qed.
+Print Assumptions C15_rename_bgp.
+
+Theorem C15_rename_bgp_model : forall r r', (forall v, r' (r v) = v) -> (forall w, r (r' w) = w) ->
+  forall ds g c ts, sol_wf c = true ->
+  Permutation (eval_td ds g (ren_s r c) (BGP (map (ren_tp r) ts))) (map (ren_s r) (eval_td ds g c (BGP ts))).
+Proof. exact ren_td_bgp. Qed.
+Print Assumptions C15_rename_bgp_model.
+
+(* the specification commutes with the renaming on [rfrag]: BGP, Join, Union, VALUES,
+   sub-SELECT (Project), DISTINCT, GRAPH over an IRI.  _partial: patterns with expressions
+   (FILTER, BIND, OPTIONAL), MINUS, GRAPH over a variable are not covered, and the statement
+   is about the specification; for the model it follows on the proved C04 fragment through
+   C04_pushdown_partial only for the operators listed. *)
+Theorem C15_rename_partial : forall r r', (forall v, r' (r v) = v) -> (forall w, r (r' w) = w) ->
+  forall ds p, rfrag p = true -> shape p = true ->
+  forall g, eval_bu ds g (ren_alg r p) = map (ren_s r) (eval_bu ds g p).
+Proof. exact ren_bu. Qed.
+Print Assumptions C15_rename_partial.
 
 Example C15_nonvacuous :
   exists ts ts', ts <> ts' /\ Permutation ts ts'
